@@ -15,7 +15,7 @@ ASSUMPTIONS = ["float rounding not modelled (1e-9 relative)"]
 
 def payloads(tier, seed):
     n = 60 if tier == "quick" else 1200
-    return [{"seed": seed, "index": i} for i in range(n)]
+    return [{"seed": seed, "index": i} for i in range(n)] + [{"seed": seed, "index": i, "mode": "axis"} for i in range(n // 5)]
 
 KNOWN_EULER = [
     {"op": "model", "t0": "-2", "t1": "1", "dt": "1", "comps": ["A", "B"], "inf": ["A"]},
@@ -50,9 +50,93 @@ def known_task(W, payload):
                 break
     return out
 
+def ref_interp(kind, xs, ys, c, u):
+    """the documented interpolants (C16), in numpy: piecewise constant / linear / sigmoidal value at u"""
+    xs = [float(v) for v in xs]; ys = [float(v) for v in ys]
+    if kind == "pw":
+        return ys[sum(1 for b in xs if u >= b)]
+    if u <= xs[0]: return ys[0]
+    if u > xs[-1]: return ys[-1]
+    k = max(i for i in range(len(xs) - 1) if xs[i] < u or i == 0)
+    k = min(k, len(xs) - 2)
+    rel = (u - xs[k]) / (xs[k + 1] - xs[k])
+    if kind == "lin":
+        return ys[k] + rel * (ys[k + 1] - ys[k])
+    sg = lambda z: 1.0 / (1.0 + np.exp(c * (0.5 - z)))
+    off = sg(0.0)
+    return ys[k] + (sg(rel) - off) / (1.0 - 2.0 * off) * (ys[k + 1] - ys[k])
+
+
+def axis_task(W, payload):
+    """inputs defined over an axis OTHER than the raw time: a delayed time `Time - Parameter(delay)` or a state-dependent quantity (the
+    prevalence I / (N + 1)), for the piecewise-constant, linear and sigmoidal time functions: the flow's weight at (t, x) must be the documented
+    interpolant evaluated at the axis value AT that time and state (one_step at several points, and raw flow outputs along an euler run)"""
+    import interp as interp_mod
+    r = random.Random(f"C10a:{payload['seed']}:{payload['index']}")
+    out = mk_out()
+    kind = ["sig", "lin", "pw", "sig"][payload["index"] % 4]
+    axis_kind = ["delayed_time", "prevalence"][(payload["index"] // 4) % 2]
+    bump(out, f"axis:{kind}:{axis_kind}")
+    t0 = r.choice([0, 2, -3]); nsteps = r.randint(3, 6)
+    delay = r.choice(["1/2", "3/2", "5/4"])
+    if axis_kind == "delayed_time":
+        axis = {"-": [{"t": 1}, {"p": "delay"}]}
+        knots = sorted(r.sample([t0 + k / 4.0 for k in range(-2, 4 * nsteps) if k % 4 != 2], 3))
+    else:
+        axis = {"/": [{"x": 1}, {"+": [{"xs": 1}, {"c": "1"}]}]}
+        knots = sorted(r.sample([0.05, 0.1, 0.2, 0.3, 0.45, 0.6, 0.8], 3))
+    ys = [r.choice([0.0625, 0.125, 0.25, 0.5, 0.375]) for _ in range(4 if kind == "pw" else 3)]
+    curv = r.choice([16.0, 8.0, 4.0])
+    qs = lambda v: q(Fr(v).limit_denominator(10 ** 6))
+    xs_e = [{"c": qs(v)} for v in knots]; ys_e = [{"c": qs(v)} for v in ys]
+    fn = {"sig": {"sig": [axis, xs_e, ys_e, qs(curv)]}, "lin": {"lin": [axis, xs_e, ys_e]}, "pw": {"pw": [axis, xs_e, ys_e]}}[kind]
+    ops = [{"op": "model", "t0": str(t0), "t1": str(t0 + nsteps), "dt": "1", "comps": ["S", "I", "R"], "inf": ["I"]},
+           {"op": "init_pop", "dist": [["S", {"c": "900"}], ["I", {"c": "100"}]]},
+           {"op": "flow", "kind": "transition", "name": "dyn", "param": fn, "src": "S", "dst": "I"},
+           {"op": "flow", "kind": "transition", "name": "rec", "param": {"c": "1/8"}, "src": "I", "dst": "R"},
+           {"op": "request", "name": "dyn_raw", "kind": "flow", "flow": "dyn", "raw": True, "save": True}]
+    I = interp_mod.Interp()
+    for op in ops:
+        rr = I.apply(op)
+        if not rr["ok"]:
+            bump(out, "axis_infra:" + str(rr.get("err"))[:60]); return out
+    params = [["delay", delay]] if axis_kind == "delayed_time" else []
+    def axis_value(t, x):
+        return t - float(Fr(delay)) if axis_kind == "delayed_time" else x[1] / (sum(x) + 1.0)
+    xsf = [float(Fr(e["c"])) for e in xs_e]; ysf = [float(Fr(e["c"])) for e in ys_e]
+    for _ in range(5):
+        t = t0 + r.randint(0, 4 * nsteps) / 4.0
+        x = [float(r.randint(50, 900)), float(r.randint(1, 900)), float(r.randint(0, 300))]
+        rr = I.apply({"op": "one_step", "params": params, "t": qs(t), "x": [qs(v) for v in x]})
+        out["evals"] += 1
+        if not rr["ok"]:
+            fail(out, "one_step raised for an input defined over a non-time axis", "c10", payload, err=rr.get("err"), program=ops); return out
+        want = ref_interp(kind, xsf, ysf, curv, axis_value(t, x)) * x[0]
+        got = rr["flow_rates"][0]
+        out["cases"].append(f"axis:{kind}:{axis_kind}:{t}:{x}")
+        if abs(got - want) > 1e-9 * max(1.0, abs(want)):
+            fail(out, f"a {kind} input over the axis '{axis_kind}' is not evaluated at the current value of that axis", "c10", payload, t=t, x=x, got=got, want=want,
+                 axis_value=axis_value(t, x), program=ops, params=params)
+            return out
+    rr = I.apply({"op": "run", "params": params, "solver": "euler"})
+    out["evals"] += 1
+    if rr["ok"]:
+        outs = np.array(rr["outputs"]); raw = dict((k, v) for k, v in rr["derived"]).get("dyn_raw")
+        times = [float(t) for t in I.model.times]
+        for i in range(len(times)):
+            want = ref_interp(kind, xsf, ysf, curv, axis_value(times[i], list(outs[i]))) * outs[i][0]
+            if raw is not None and abs(raw[i] - want) > 1e-9 * max(1.0, abs(want)):
+                fail(out, f"raw flow output of a {kind} input over the axis '{axis_kind}' is not the rate at that row's time and state", "c10", payload,
+                     row=i, got=raw[i], want=want, program=ops, params=params)
+                break
+    return out
+
+
 def task(W, payload):
     if payload.get("known"):
         return known_task(W, payload)
+    if payload.get("mode") == "axis":
+        return axis_task(W, payload)
     r = random.Random(f"C10:{payload['seed']}:{payload['index']}")
     # every second program: several flows share a NAME (different rates, one adjustment declaration reaching all of them)
     g = Gen(r, Opts(max_strats=2, max_flows=6, n_requests=2, shared_names_bias=(0.5 if payload["index"] % 2 else 0.0),
